@@ -49,6 +49,15 @@ def run_case(case, obs):
     ptypes = np.where(np.isfinite(lb) & np.isfinite(ub) & (rng.random(V) < 0.5), 2, 1)
     mags = np.where(ptypes == 2, rng.uniform(0.01, 0.5, size=V), 10 ** rng.uniform(-3, 0.5, size=V))
     btypes = rng.integers(1, 4, size=V)
+    U = 1.0
+    if rng.random() < 0.25:
+        # the same problem with the variables expressed in another unit (per variable): values, bounds and absolute magnitudes
+        # scale together, nothing else changes
+        Uv = 10.0 ** rng.choice([-9, -6, -3, 3, 6, 9], size=V)
+        lb, ub, x = lb * Uv, ub * Uv, x * Uv
+        mags = np.where(ptypes == 2, mags, mags * Uv)
+        U = Uv
+        obs.count("with_variables_in_other_units")
     scale = rng.choice([1e-6, 1e-2, 1.0, 3.0, 50.0], size=(R, P, V))
     samples = rng.uniform(-1, 1, size=(R, P, V)) * scale
     spec = {"V": V, "R": R, "P": P, "rweights": [1.0] * R, "oweights": [1.0], "n_con": 0, "x0": x.tolist(), "lb": lb.tolist(), "ub": ub.tolist(),
@@ -132,7 +141,11 @@ def run_case(case, obs):
                     if ptypes[v] == 2:
                         obs.count("relative_magnitude_entries")
                     inside = lb[v] <= w <= ub[v]
-                    tol = (1e-12 if T is None else 1e-9) * (1 + abs(w))
+                    tol = (1e-12 if T is None else 1e-9) * ((U if np.isscalar(U) else U[v]) + abs(w) + abs(x[v]))
+                    if T is not None:
+                        # the scaler's own offset limits what a round trip through optimizer coordinates can resolve
+                        off = case["tspec"].get("voffset")
+                        tol += 1e-13 * (1.0 + (abs(off[v]) if off is not None else 0.0))
                     if inside:
                         ok = abs(g - w) <= tol
                         kind = "inside_value_altered"
@@ -173,7 +186,7 @@ def run_case(case, obs):
                 gotm = np.asarray(gm.evaluations.perturbed_variables)
                 wantm = np.where(fin, lb + ub - got, got)
                 obs.count("mirror_symmetry_pairs")
-                okm = np.abs(gotm - wantm) <= 1e-9 * (1 + np.abs(wantm) + np.abs(x_first) + np.where(fin, np.abs(lb) + np.abs(ub), 0.0))
+                okm = np.abs(gotm - wantm) <= 1e-9 * (U + np.abs(wantm) + np.abs(x_first) + np.where(fin, np.abs(lb) + np.abs(ub), 0.0))
                 if not okm.all():
                     r_, p_, v_ = (int(t) for t in np.argwhere(~okm)[0])
                     obs.violation("bounds_not_treated_alike", variable=v_, btype=NAMES[int(btypes[v_])], lb=float(lb[v_]), ub=float(ub[v_]), x=float(x_first[v_]),
